@@ -217,3 +217,25 @@ func Solve(script string, probes []string, timeoutS int, usesLambda bool) SolveR
 	best.Solver = "race(z3-5.1.0,z3-4.8.12,cvc5-1.0)"
 	return best
 }
+
+// CrossCheck re-runs a discharged script on the solvers other than the one
+// that answered: "unsat" from a second solver confirms the answer, "sat"
+// is a disagreement (a tool error, never a pass).
+func CrossCheck(script string, first string, usesLambda bool, timeoutS int) (string, string) {
+	for _, sp := range solvers {
+		if strings.HasPrefix(first, sp.name) {
+			continue
+		}
+		if usesLambda && !sp.lambda {
+			continue
+		}
+		r := runOne(context.Background(), sp, script, timeoutS, nil)
+		switch r.Status {
+		case "unsat":
+			return sp.name, "unsat"
+		case "sat":
+			return sp.name, "sat"
+		}
+	}
+	return "", ""
+}
